@@ -64,6 +64,25 @@ def main(tier):
                 run.ob(txt == rtxt, "syntax|fn|%s|%s" % (name, ev), "C15 parser arm for a shared function is the same in every evaluator", "%s vs %s, function %r" % (ev, rev, name), "%s vs %s" % (txt[:160], rtxt[:160]))
             else:
                 ref[key] = (ev, txt)
+    # 1b. token categories of shared symbols agree across evaluators
+    cats = {}
+    for ev in evs:
+        m = models[ev]
+        for s_ in sorted(list(spec.BINARY_OPS) + list(spec.POSTFIX_OPS) + list(spec.NEUTRAL_SURFACES)) + ["SUPERSCRIPT", "FUNCTION"]:
+            if s_ == "SUPERSCRIPT":
+                c_ = m.tb.category_of("Superscript")
+            elif s_ == "FUNCTION":
+                c_ = m.tb.category_of("ExplicitFunction")
+            else:
+                tv = m.tokvar(s_)
+                if tv is None:
+                    continue
+                c_ = m.tb.category_of(tv[0] if isinstance(tv, tuple) else tv)
+            if s_ in cats:
+                rev, rc = cats[s_]
+                run.ob(c_ == rc, "syntax|category|%s|%s" % (s_, ev), "C15 a shared symbol has the same precedence category in every evaluator", "%s vs %s: %r" % (ev, rev, s_), "%s vs %s" % (c_, rc))
+            else:
+                cats[s_] = (ev, c_)
     # 2. number <-> i64
     if "eval_number" in models and "eval_i64" in models:
         mn, mi = models["eval_number"], models["eval_i64"]
